@@ -384,3 +384,205 @@ pub fn dir_slot_sweep() -> Result<u64, Violation> {
     }
     Ok(steps)
 }
+
+/// A read-only backend for files too large to hold in memory: an explicit prefix (header,
+/// directory, DIFAT and FAT sectors) followed by stream data given by a formula.
+struct SparseIo {
+    prefix: std::sync::Arc<Vec<u8>>,
+    len: u64,
+    pos: u64,
+}
+
+fn sparse_pat(stream_off: u64) -> u8 {
+    ((stream_off.wrapping_mul(0x9E37_79B9_7F4A_7C15) >> 56) as u8) ^ ((stream_off >> 32) as u8).wrapping_mul(37) ^ ((stream_off >> 12) as u8)
+}
+
+impl std::io::Read for SparseIo {
+    fn read(&mut self, buf: &mut [u8]) -> std::io::Result<usize> {
+        let n = (buf.len() as u64).min(self.len.saturating_sub(self.pos)) as usize;
+        let base = self.prefix.len() as u64;
+        for (i, b) in buf[..n].iter_mut().enumerate() {
+            let off = self.pos + i as u64;
+            *b = if off < base { self.prefix[off as usize] } else { sparse_pat(off - base) };
+        }
+        self.pos += n as u64;
+        Ok(n)
+    }
+}
+
+impl std::io::Seek for SparseIo {
+    fn seek(&mut self, pos: std::io::SeekFrom) -> std::io::Result<u64> {
+        let new = match pos {
+            std::io::SeekFrom::Start(p) => Some(p),
+            std::io::SeekFrom::End(d) => (self.len as i128 + d as i128).try_into().ok(),
+            std::io::SeekFrom::Current(d) => (self.pos as i128 + d as i128).try_into().ok(),
+        };
+        match new {
+            Some(p) => {
+                self.pos = p;
+                Ok(p)
+            }
+            None => Err(std::io::Error::new(std::io::ErrorKind::InvalidInput, "seek before start")),
+        }
+    }
+}
+
+/// A valid version-4 file of a little more than 4 GiB holding one stream that runs across
+/// file offset 2^32 (and whose own offsets pass 2^32): opened in both modes through a sparse
+/// backend, read around both boundaries and at the end. Offsets that are computed in 32 bits
+/// anywhere wrap around here and nowhere else.
+pub fn file_beyond_4gib() -> Result<u64, Violation> {
+    use std::io::{Read, Seek, SeekFrom};
+    let what = "valid V4 file of 4 GiB + 10 MiB with one stream across file offset 2^32 (sparse read-only backend)";
+    let fail = |key: &str, detail: String| Violation { key: key.to_string(), detail: format!("[{}] {}", what, detail), case: serde_json::json!({"scenario": what}), trace: vec![] };
+    const SL: u64 = 4096;
+    let size: u64 = (4u64 << 30) + (10 << 20) + 123;
+    let n_data = (size + SL - 1) / SL;
+    // sectors: 0 directory, 1 DIFAT sector, 2..2+f FAT sectors, then the data
+    let mut f = 1u64;
+    loop {
+        let total = 2 + f + n_data;
+        if f * 1024 >= total {
+            break;
+        }
+        f += 1;
+    }
+    let d0 = 2 + f;
+    let total = d0 + n_data;
+    if f <= 109 || f > 109 + 1023 {
+        return Err(fail("harness|scenario", format!("{} FAT sectors do not fit header + one DIFAT sector", f)));
+    }
+    let mut prefix = vec![0u8; ((d0 + 1) * SL) as usize];
+    let put32 = |b: &mut Vec<u8>, off: usize, v: u32| b[off..off + 4].copy_from_slice(&v.to_le_bytes());
+    let put16 = |b: &mut Vec<u8>, off: usize, v: u16| b[off..off + 2].copy_from_slice(&v.to_le_bytes());
+    const END: u32 = 0xFFFF_FFFE;
+    const FREE: u32 = 0xFFFF_FFFF;
+    // header
+    prefix[0..8].copy_from_slice(&[0xD0, 0xCF, 0x11, 0xE0, 0xA1, 0xB1, 0x1A, 0xE1]);
+    put16(&mut prefix, 24, 0x3E);
+    put16(&mut prefix, 26, 4);
+    put16(&mut prefix, 28, 0xFFFE);
+    put16(&mut prefix, 30, 12);
+    put16(&mut prefix, 32, 6);
+    put32(&mut prefix, 40, 1);
+    put32(&mut prefix, 44, f as u32);
+    put32(&mut prefix, 48, 0);
+    put32(&mut prefix, 56, 4096);
+    put32(&mut prefix, 60, END);
+    put32(&mut prefix, 64, 0);
+    put32(&mut prefix, 68, 1);
+    put32(&mut prefix, 72, 1);
+    for i in 0..109usize {
+        put32(&mut prefix, 76 + 4 * i, 2 + i as u32);
+    }
+    let soff = |s: u64| ((s + 1) * SL) as usize;
+    // DIFAT sector (sector 1)
+    for c in 0..1023usize {
+        let idx = 109 + c as u64;
+        put32(&mut prefix, soff(1) + 4 * c, if idx < f { (2 + idx) as u32 } else { FREE });
+    }
+    put32(&mut prefix, soff(1) + 4092, END);
+    // FAT
+    for s in 0..f * 1024 {
+        let v = if s == 0 {
+            END
+        } else if s == 1 {
+            0xFFFF_FFFC
+        } else if s < d0 {
+            0xFFFF_FFFD
+        } else if s < total - 1 {
+            (s + 1) as u32
+        } else if s == total - 1 {
+            END
+        } else {
+            FREE
+        };
+        put32(&mut prefix, soff(2) + 4 * s as usize, v);
+    }
+    // directory (sector 0): root, one stream, 30 unallocated entries
+    let dir = soff(0);
+    let put_name = |b: &mut Vec<u8>, off: usize, name: &str| {
+        let u: Vec<u16> = name.encode_utf16().collect();
+        for (i, c) in u.iter().enumerate() {
+            b[off + 2 * i..off + 2 * i + 2].copy_from_slice(&c.to_le_bytes());
+        }
+        b[off + 64..off + 66].copy_from_slice(&(((u.len() + 1) * 2) as u16).to_le_bytes());
+    };
+    for e in 0..32usize {
+        let off = dir + 128 * e;
+        put32(&mut prefix, off + 68, FREE);
+        put32(&mut prefix, off + 72, FREE);
+        put32(&mut prefix, off + 76, FREE);
+    }
+    put_name(&mut prefix, dir, "Root Entry");
+    prefix[dir + 66] = 5;
+    prefix[dir + 67] = 1;
+    put32(&mut prefix, dir + 76, 1);
+    put32(&mut prefix, dir + 116, END);
+    put_name(&mut prefix, dir + 128, "big");
+    prefix[dir + 128 + 66] = 2;
+    prefix[dir + 128 + 67] = 1;
+    put32(&mut prefix, dir + 128 + 116, d0 as u32);
+    prefix[dir + 128 + 120..dir + 128 + 128].copy_from_slice(&size.to_le_bytes());
+    let prefix = std::sync::Arc::new(prefix);
+    let file_len = (total + 1) * SL;
+    let mut reads = 0u64;
+    for strict in [false, true] {
+        let io = SparseIo { prefix: prefix.clone(), len: file_len, pos: 0 };
+        let opened = guard("open", || open_options(None, strict).open_with(io)).map_err(|f| fail(&f.key, f.detail))?;
+        let mut c = match opened {
+            Ok(c) => c,
+            Err(e) => return Err(fail(&format!("mismatch|open|file_beyond_4gib|Ok|Err|{}", if strict { "strict" } else { "permissive" }), format!("open (strict={}) rejects the file: {}", strict, e))),
+        };
+        let r = guard("big_reads", || -> Result<u64, String> {
+            let e = c.entry("/big").map_err(|e| format!("entry: {}", e))?;
+            if e.len() != size {
+                return Err(format!("entry(\"/big\").len() = {}, expected {}", e.len(), size));
+            }
+            let mut s = c.open_stream("/big").map_err(|e| format!("open_stream: {}", e))?;
+            if s.len() != size {
+                return Err(format!("Stream::len() = {}, expected {}", s.len(), size));
+            }
+            let base = (d0 + 1) * SL;
+            // where the *file* offset passes 2^32, where the *stream* offset passes 2^32, start, end
+            let spots = [0u64, (1u64 << 32) - base - 5000, (1u64 << 32) - 5000, size - 9000, (1u64 << 31) - 3000];
+            let mut n = 0;
+            for &at in spots.iter() {
+                let got_pos = s.seek(SeekFrom::Start(at)).map_err(|e| format!("seek({}): {}", at, e))?;
+                if got_pos != at {
+                    return Err(format!("seek(Start({})) returned {}", at, got_pos));
+                }
+                let want = 9000usize.min((size - at) as usize);
+                let mut buf = vec![0u8; want];
+                s.read_exact(&mut buf).map_err(|e| format!("read_exact at {}: {}", at, e))?;
+                if let Some(i) = (0..want).find(|&i| buf[i] != sparse_pat(at + i as u64)) {
+                    return Err(format!("stream byte {} reads {:#x}, expected {:#x} (file offset {:#x})", at + i as u64, buf[i], sparse_pat(at + i as u64), base + at + i as u64));
+                }
+                let p = s.stream_position().map_err(|e| e.to_string())?;
+                if p != at + want as u64 {
+                    return Err(format!("position after reading {} bytes at {} is {}", want, at, p));
+                }
+                n += 1;
+            }
+            let p = s.seek(SeekFrom::End(-50)).map_err(|e| format!("seek(End(-50)): {}", e))?;
+            if p != size - 50 {
+                return Err(format!("seek(End(-50)) returned {}, expected {}", p, size - 50));
+            }
+            let mut tail = Vec::new();
+            s.read_to_end(&mut tail).map_err(|e| format!("read_to_end: {}", e))?;
+            if tail.len() != 50 || (0..50).any(|i| tail[i] != sparse_pat(size - 50 + i as u64)) {
+                return Err(format!("read_to_end from len-50 returned {} bytes / wrong bytes", tail.len()));
+            }
+            if s.seek(SeekFrom::Start(size + 1)).is_ok() {
+                return Err("seek beyond the end returned Ok".to_string());
+            }
+            Ok(n + 1)
+        })
+        .map_err(|f| fail(&f.key, f.detail))?;
+        match r {
+            Ok(n) => reads += n,
+            Err(m) => return Err(fail(&format!("mismatch|read|file_beyond_4gib|{}", if strict { "strict" } else { "permissive" }), m)),
+        }
+    }
+    Ok(reads)
+}
